@@ -496,3 +496,118 @@ def verified_names_final(F, S, fn, label):
         return [ok("R-ORDER", inst, fn.loc(v["id"]), fn.qn, req, "no change of %s after the check" % fmt_term(names))]
     return [bad("R-ORDER", inst, fn.loc(later[0]["id"]), fn.qn, req,
                 "%s is changed at %s, after it was checked at %s" % (fmt_term(names), fn.loc(later[0]["id"]), fn.loc(v["id"])))]
+
+
+# ------------------------------------------------------------------------------------------
+def unbounded_cstring_reads(F, S, scope, functions=None):
+    """R-TAINT (C string): the bytes of a fixed-size character buffer (std::array<char, N>, char[N]) are never read as a
+    NUL-terminated string - std::string(ptr) without a length, `+ ptr`, `+= ptr`, strlen(ptr), append(ptr) - because
+    nothing guarantees a terminator inside the buffer (file data can fill it completely) and the read then runs into
+    whatever memory follows. A length-taking form (std::string(ptr, n), std::string(begin, end)) is bounded.
+    Returns (obligations, sites)."""
+    out = []
+    n = 0
+
+    def fixed_buffer_pointer(fn, a):
+        i = fn.strip(a)
+        nd = fn.n(i)
+        t = fn.term(i)
+        if nd["k"] == "CXXMemberCallExpr" and nd.get("fname") == "data" and (nd.get("mrec") or "").startswith("std::array<char"):
+            return t
+        b = fn.n(fn.strip(a, casts=True))
+        ct = b.get("ct") or ""
+        if ct.startswith("char[") or ct.startswith("const char[") and b["k"] != "StringLiteral":
+            return t if b["k"] != "StringLiteral" else None
+        if t[0] == "un" and t[1] == "&" and t[2][0] == "idx":
+            base = fn.n(fn.strip(fn.kids(fn.strip(a))[0])) if fn.kids(fn.strip(a)) else {}
+            return None
+        return None
+    fns = functions if functions is not None else [f for f in F.functions.values() if any(x in f.file for x in scope)]
+    for fn in sorted(fns, key=lambda f: f.key):
+        if not fn.cfg or fn.d.get("implicit"):
+            continue
+        for nd in fn.nodes:
+            ptr_args = []
+            ps = nd.get("params") or []
+            args = nd.get("args") or []
+            if nd["k"] in CTORS and (nd.get("ctor_rec") or "").startswith("std::basic_string<char") and ps and ps[0].get("ptr") and args:
+                bounded = len(ps) >= 2 and ps[1].get("iw") is not None and len(args) >= 2 and fn.n(args[1])["k"] != "CXXDefaultArgExpr"
+                if not bounded:
+                    ptr_args.append(args[0])
+            elif nd["k"] == "CXXOperatorCallExpr" and nd.get("op") in ("+", "+=", "=") and ps:
+                for a_, p_ in zip(args[-len(ps):], ps):
+                    if p_.get("ptr") and "char" in (p_.get("t") or ""):
+                        ptr_args.append(a_)
+            elif nd["k"] in CALLS and nd.get("fname") in ("strlen", "append", "assign", "strcpy", "strcat", "strcmp") and args and ps and ps[0].get("ptr") \
+                    and not (len(ps) >= 2 and ps[1].get("iw") is not None):
+                ptr_args.append(args[0])
+            for a_ in ptr_args:
+                t = fixed_buffer_pointer(fn, a_)
+                if t is None:
+                    continue
+                n += 1
+                inst = "%s#c-string-read:%s" % (fn.qn, fmt_term(t))
+                req = "a fixed-size character buffer is not read as a NUL-terminated string (no terminator is guaranteed inside it)"
+                out.append(bad("R-TAINT", inst, fn.loc(nd["id"]), fn.qn, req,
+                               "%s is read up to the first NUL: if the buffer holds none, memory after it is read (and copied out)" % fmt_term(t)))
+    return out, n
+
+
+def cstring_obligations(F, S, run):
+    o, n = unbounded_cstring_reads(F, S, ["/src/"])
+    run.add(o)
+    fx = [f for f in F.fixture_functions.values() if f.qn == "fixture::MarkerText"]
+    hit = bool(fx) and any(x.status == "violated" for x in unbounded_cstring_reads(F, S, [], functions=fx)[0])
+    run.fixture("fixtures/raw_read.cpp: std::string(marker.data()) on a std::array<char, 10> read from a stream is reported by R-TAINT(C string)", hit)
+
+
+# ------------------------------------------------------------------------------------------
+EXC_TYPES = ("std::runtime_error", "std::logic_error", "std::out_of_range", "std::invalid_argument", "std::length_error",
+             "std::domain_error", "std::range_error", "std::overflow_error", "std::underflow_error", "std::exception",
+             "std::bad_alloc", "std::system_error", "std::ios_base::failure")
+
+
+def discarded_exceptions(F, S, scope, functions=None):
+    """R-ERR: an exception object is never built and dropped: `std::runtime_error("...");` as a statement of its own (the
+    `throw` lost in an edit) refuses nothing - the check around it has no effect. Returns (obligations, sites)."""
+    out = []
+    n = 0
+    fns = functions if functions is not None else [f for f in F.functions.values() if any(x in f.file for x in scope)]
+    for fn in sorted(fns, key=lambda f: f.key):
+        if not fn.cfg or fn.d.get("implicit"):
+            continue
+        pm = fn.parent_map()
+        for nd in fn.nodes:
+            if nd["k"] not in CTORS or (nd.get("ctor_rec") or "") not in EXC_TYPES or nd.get("copy_or_move"):
+                continue
+            cur = nd["id"]
+            verdict = None
+            for _ in range(12):
+                par = pm.get(cur)
+                if par is None:
+                    break
+                pk = fn.n(par)["k"]
+                if pk == "CXXThrowExpr":
+                    verdict = "thrown"
+                    break
+                if pk in ("CompoundStmt", "IfStmt", "ForStmt", "WhileStmt", "DoStmt", "CXXForRangeStmt", "CXXCatchStmt", "CXXTryStmt", "SwitchStmt", "CaseStmt", "DefaultStmt"):
+                    verdict = "discarded"
+                    break
+                if pk in ("DeclStmt", "ReturnStmt") or pk in CALLS or (pk in CTORS and not fn.n(par).get("copy_or_move")) or pk == "BinaryOperator":
+                    verdict = "used"
+                    break
+                cur = par
+            if verdict == "discarded":
+                n += 1
+                out.append(bad("R-ERR", "%s#discarded-exception@%s" % (fn.qn, nd.get("l")), fn.loc(nd["id"]), fn.qn,
+                               "an exception object that is constructed is thrown",
+                               "%s(...) is built and dropped (no `throw`): the refusal it was meant to make does not happen" % nd["ctor_rec"]))
+    return out, n
+
+
+def discarded_exception_obligations(F, S, run):
+    o, n = discarded_exceptions(F, S, ["/src/"])
+    run.add(o)
+    fx = [f for f in F.fixture_functions.values() if f.qn == "fixture::CheckTotal"]
+    hit = bool(fx) and any(x.status == "violated" for x in discarded_exceptions(F, S, [], functions=fx)[0])
+    run.fixture("fixtures/raw_read.cpp: `std::runtime_error(\"...\");` without throw is reported by R-ERR(discarded exception)", hit)
